@@ -610,8 +610,12 @@ class Interp:
             raise Undecided(f"assignment target {unparse(t)}")
 
     # -- helpers --------------------------------------------------------------------------
+    OPAQUE_TRUTH = None  # analysis policy: None = undecided; True / False = assume every opaque *value* is truthy / falsy (callers run both and compare)
+
     def truth(self, v, node=None):
         if isinstance(v, (Opaque,)):
+            if Interp.OPAQUE_TRUTH is not None and v.kind in ("real", "int", "array", "ndarray", None):
+                return Interp.OPAQUE_TRUTH
             raise Undecided(f"condition depends on an opaque value: {unparse(node) if node is not None else v}")
         if isinstance(v, (Inst, ClassVal, FuncVal, External, ModuleVal)):
             return True
